@@ -404,6 +404,73 @@ pub fn c15(tier: Tier, seed: u64) -> Prop {
 }
 
 pub fn replay_c15(case: &Value) -> bool {
-    println!("C15 counterexamples from run()-based units are re-checked by re-running ./check.sh C15 quick: {}", case);
+    crate::hv::panics::install_quiet_hook();
+    crate::hv::panics::eval_log_args(true);
+    let isa = crate::hv::isa::Isa::new();
+    if let Some(line) = case["line"].as_str() {
+        let mut rig = sock::Rig::new(&isa);
+        let l2 = line.to_string();
+        let r = catch_unwind(AssertUnwindSafe(|| {
+            let batches: Vec<Vec<&str>> = vec![vec![l2.as_str()], vec!["u8:430300:11", l2.as_str()]];
+            sock::run_batches(&mut rig, &batches, &[1, 2], 5)
+        }));
+        crate::cpu::verif_hooks::set_run_loop_hook(None);
+        return match r {
+            Ok(o) => {
+                println!("control line {:?}: run() result {}", line, o.result);
+                o.returned_ok || o.result.contains(crate::cpu::verif_hooks::HORIZON_MESSAGE)
+            }
+            Err(_) => {
+                println!("control line {:?}: the emulator panicked @ {}", line, crate::hv::panics::take_last_location());
+                false
+            }
+        };
+    }
+    if let Some(desc) = case["guest"].as_str() {
+        // "shapeX n=Y fail=Z"
+        let nums: Vec<usize> = desc.split(|c: char| !c.is_ascii_digit()).filter(|s| !s.is_empty()).filter_map(|s| s.parse().ok()).collect();
+        if nums.len() == 3 {
+            let p = runloop::build(&isa, nums[0], nums[1] as u32, nums[2]);
+            let mut pair = runloop::Pair::new();
+            let r = catch_unwind(AssertUnwindSafe(|| runloop::run_checked(&mut pair, &p, 200_000)));
+            crate::cpu::verif_hooks::set_run_loop_hook(None);
+            return match r {
+                Ok((o, _)) => {
+                    println!("guest {}: run() result {}", desc, o.result);
+                    true
+                }
+                Err(_) => {
+                    println!("guest {}: run() panicked @ {}", desc, crate::hv::panics::take_last_location());
+                    false
+                }
+            };
+        }
+    }
+    if let Some(e) = case["entry"].as_str() {
+        let entry = u32::from_str_radix(e, 16).unwrap_or(0x400000);
+        let mut cpu = Cpu::new();
+        super::irq::poke(&mut cpu, entry, &[0x00, 0x00, 0x00, 0x00]);
+        cpu.er[2] = entry;
+        cpu.er[7] = 0x4f0000;
+        cpu.exit_addr = 0x5ffff0;
+        let mut it = 0;
+        crate::cpu::verif_hooks::set_run_loop_hook(Some(Box::new(move |_c: &mut Cpu| {
+            it += 1;
+            it > 50
+        })));
+        let r = catch_unwind(AssertUnwindSafe(|| cpu.run()));
+        crate::cpu::verif_hooks::set_run_loop_hook(None);
+        return match r {
+            Ok(x) => {
+                println!("entry {:06x}: run() returned {:?}", entry, x.map_err(|e| format!("{:#}", e)));
+                true
+            }
+            Err(_) => {
+                println!("entry {:06x}: run() panicked @ {}", entry, crate::hv::panics::take_last_location());
+                false
+            }
+        };
+    }
+    println!("unrecognised C15 replay case: {}", case);
     false
 }
